@@ -494,6 +494,15 @@ fn gen_c18(tier: &str, rng: &mut Rng, emit: &mut dyn FnMut(Op)) {
             emit(Op::s("pkgname.new", &[&n2]));
         }
     }
+    // versions far longer than any fixed buffer: the revision at their very end is THE revision
+    for k in [500usize, 511, 512, 1020, 1024, 3000] {
+        for tail in ["nb7", "nb12", ""] {
+            let v = format!("1{}{}", ".0".repeat(k), tail);
+            emit(Op::s("pkgname.dewey", &[&format!("p-{}", v)]));
+            emit(Op::s("pkgname.new", &[&format!("p-{}", v)]));
+            emit(Op::s("dewey.match", &[&format!("p>=1{}nb8", ".0".repeat(k)), &format!("p-{}", v)]));
+        }
+    }
     for (p, n) in [("foo<2", "foo-bar-1.0"), ("foo>=0", "foo-bar-1.0"), ("foo-bar>=0", "foo-bar-1.0"), ("pkg>=1.0nb3", "pkg-1.0nb9-0.5nb1"),
         ("pkg-1.0nb9>=0", "pkg-1.0nb9-0.5nb1"), ("php56>=5", "php56-mysql-5.6"), ("a>=0", "a--1")] {
         emit(Op::s("dewey.match", &[p, n]));
